@@ -5,7 +5,7 @@ from common import *
 def spec_line(n, deps, listing):
     return "%d;%s;%s" % (n, ";".join(",".join(str(d) for d in deps[i]) for i in range(n)), ",".join(str(x) for x in listing))
 
-def run_daemon(impl, n, deps, listing, extra_dep=None):
+def run_daemon(impl, n, deps, listing, extra_dep=None, anti=None):
     d = Path(tempfile.mkdtemp(dir=str(BUILD / "tmp"), prefix="m"))
     try:
         log = d / "stub.log"
@@ -16,6 +16,7 @@ def run_daemon(impl, n, deps, listing, extra_dep=None):
             ds = ["m%d" % x for x in deps[m]]
             if extra_dep and extra_dep[0] == m: ds.append(extra_dep[1])
             env["STUBDEPS_m%d" % m] = ",".join(ds)
+            if anti and anti[m]: env["STUBANTI_m%d" % m] = ",".join("m%d" % x for x in anti[m])
         try:
             p = subprocess.run(["timeout", "-s", "KILL", "30", str(impl / "iauthd-c"), "-n", "-k", "-f", str(conf)], input=b"", stdout=subprocess.PIPE, stderr=subprocess.PIPE, env=env, cwd=str(d), timeout=60)
         except subprocess.TimeoutExpired:
@@ -140,6 +141,54 @@ def run(chk):
             continue
         chk.cov["traces_validated_against_impl"] += 1
         distinct.add((n, str(deps), str(listing)))
+    # back-end providers (module_antidepends, README "must be unloaded after it"): m in anti[x'] means x' is a back end for m... here
+    # anti[b] lists the modules b provides for; each such module depends on b.  Not in the Coq model: judged by the oracle below only
+    # (every loaded module constructed / post-initialised / destroyed once, depends edges as before, and for BOTH kinds of edge the
+    # dependent's destructor runs before the provider's).
+    agraphs = []
+    for _ in range(120 if quick else 3000):
+        n = rng.choice([3, 4, 5])
+        order = list(range(n)); rng.shuffle(order)
+        deps = [[] for _ in range(n)]; anti = [[] for _ in range(n)]
+        for i in range(n):
+            for j in range(i + 1, n):
+                r_ = rng.random()
+                if r_ < 0.3: deps[order[i]].append(order[j])            # order[i] depends on order[j]
+                elif r_ < 0.55: anti[order[j]].append(order[i])          # order[j] is a back end for order[i]: order[i] depends on order[j]
+        listing = rng.sample(range(n), rng.randrange(1, n + 1))
+        agraphs.append((n, deps, anti, listing))
+    # the shape that needs it: a root that sorts first pulls in the dependent, the back end sorts between them
+    agraphs.append((3, [[2], [], []], [[], [2], []], [0, 1]))
+    agraphs.append((3, [[2], [], []], [[], [2], []], [1, 0]))
+    ares = pmap(lambda g: run_daemon(impl, g[0], g[1], g[3], anti=g[2]), agraphs)
+    for (n, deps, anti, listing), (rc, evs, out) in zip(agraphs, ares):
+        if len(chk.violations) >= 4: break
+        chk.cov["evaluations"] += 1; chk.hist("graphs with back-end (antidepends) edges")
+        loaded = []; todo = list(listing)
+        while todo:
+            m = todo.pop(0)
+            if m in loaded: continue
+            loaded.append(m); todo = list(deps[m]) + list(anti[m]) + todo
+        why = None
+        if rc != 0: why = "an acyclic graph with back-end declarations was refused or the daemon failed (exit status %s)" % rc
+        else:
+            for m in loaded:
+                for k in ("CB", "CE", "PI", "DT"):
+                    if evs.count("%s%d" % (k, m)) != 1: why = why or "module m%d: %s ran %d times" % (m, k, evs.count("%s%d" % (k, m)))
+            if why is None:
+                for m in loaded:
+                    for d in deps[m]:
+                        # (construction order is not judged here: a back end's constructor loads the module it provides for, so a
+                        #  dependency may still be under construction - inherent in the interface)
+                        if not evs.index("PI%d" % d) < evs.index("PI%d" % m): why = why or "post-init of m%d ran before that of its dependency m%d" % (m, d)
+                        if not evs.index("DT%d" % m) < evs.index("DT%d" % d): why = why or "destructor of m%d ran after that of its dependency m%d" % (m, d)
+                    for x in anti[m]:
+                        if not evs.index("DT%d" % x) < evs.index("DT%d" % m): why = why or "back end m%d (declared with module_antidepends for m%d) was destroyed before m%d" % (m, x, x)
+        if why:
+            chk.violation("modules with back-end declarations: depends %s, back end for %s (listed: %s): %s" % ({("m%d" % i): ["m%d" % d for d in deps[i]] for i in range(n)}, {("m%d" % i): ["m%d" % d for d in anti[i]] for i in range(n) if anti[i]}, ["m%d" % x for x in listing], why),
+                          "depends: %s\nantidepends: %s\nconfiguration lists: %s\nevent log of the daemon (exit %s): %s\noutput:\n%s" % (deps, anti, listing, rc, " ".join(evs), out), "mod:anti:" + why[:30])
+            continue
+        chk.cov["traces_validated_against_impl"] += 1
     # an unloadable module aborts start-up
     rc, evs, out = run_daemon(impl, 2, [[1], []], [0], extra_dep=(1, "nosuchmodule"))
     chk.cov["evaluations"] += 1
